@@ -24,7 +24,7 @@ import (
 // C09 — gocc terminates; exit status zero means complete, compilable output.
 // See DESIGN.md section 4.
 
-const c09TickBudget = 5e8
+const c09TickBudget = 4e9
 
 type c09Env struct {
 	Via  string `json:"via,omitempty"`  // "symlink": cwd entered through a symbolic link
